@@ -22,7 +22,8 @@ RULE = ('Generated PortfolioConstructionModel calls on a real broker with stub q
         'universe or unweighted (must be liquidated) and some weighted asset is not held (long/short variant: a '
         'short position too).'
         " Round-10 reach: the equal-weight optimiser also without an alpha model (equal weight over the universe's members); a third of the cases put a user risk model between alpha model and optimiser (pass-through, halve, keep the first asset, or veto everything with an empty dictionary)."
-        " Round-12 reach: orders sent through the ExecutionHandler (`via_exec`), PRINT_EVENTS on (`print_events`), weights with many decimals.")
+        " Round-12 reach: orders sent through the ExecutionHandler (`via_exec`), PRINT_EVENTS on (`print_events`), weights with many decimals."
+        " Round-13 reach: `lag` - the construction model is called at the rebalance instant while the broker's clock still stands at the morning's open and the quotes before that instant differ.")
 ASSUMPTIONS = [
     'target quantities are taken from a second call of the real sizer (sizing is C10/C11\'s subject)',
     'every asset in the pool has a quote; 7-asset pool; up to 4 successive rebalances',
@@ -151,9 +152,17 @@ def _run_case(case):
     nt = False
     info = {'orders': 0, 'liquidations': 0, 'rebalances': 0}
     shared = None
-    for rb in case['rebalances']:
+    for rb_no, rb in enumerate(case['rebalances']):
         tc = cal.ts(t.date(), 21, 0)
-        b.update(tc)
+        lag = bool(case.get('lag')) and rb_no > 0
+        if lag:
+            # the construction model is driven directly at the rebalance instant while the broker's clock still stands at
+            # this morning's open (nobody called broker.update for the close), and the quotes moved since: universe, alpha
+            # model and sizer are still asked about the rebalance instant
+            dh.before = (tc, 0.9)
+            cls.add('broker_clock_lags_the_rebalance_instant')
+        else:
+            b.update(tc)
         uni = build_universe(q, rb, tc)
         w_alpha = {POOL[i]: v for i, v in rb['weights']}
         no_alpha = rb.get('no_alpha', False)
@@ -268,6 +277,7 @@ def _run_case(case):
             else:
                 for o in orders2:
                     b.submit_order('twin', o)
+        dh.before = None
         to = next_open(tc)
         for i, f in enumerate(rb['moves']):
             a = POOL[i]
@@ -372,6 +382,7 @@ def cases(draw):
             'twin': draw(st.sampled_from([False, False, True])),
             'optimiser': draw(st.sampled_from(['fixed', 'fixed', 'equal'])),
             'risk_model': draw(st.sampled_from([False, False, True])),
+            'lag': draw(st.sampled_from([False, False, False, True])),
             'via_exec': draw(st.sampled_from([False, False, True])), 'print_events': draw(st.sampled_from([False, False, True]))}
 
 
